@@ -216,6 +216,37 @@ class Intervals:
         self.memo[key] = r
         return r
 
+    def call_range(self, i, depth):
+        """range of the value a small callee returns for the ranges of the actual integer arguments (helpers such as
+        `widthOfTag(tag)`); None when it cannot be bounded.  Memory the callee reads is unknown to it, which is sound."""
+        g = self.fn.mod.fn(i.get("callee") or "")
+        cd = getattr(self, "calldepth", 0)
+        if g is None or g.decl or not g.blocks or len(g.blocks) > 60 or cd >= 2 or g is self.fn: return None
+        if g.d["ret"] in ("void",) or g.d["ret"].endswith("*") or not g.d["ret"].startswith("i"): return None
+        key = ("callrange", g.name, tuple((k, self.ival(i.ops[k], depth + 1)) for k in range(i["nargs"]) if not i.ops[k]["t"].endswith("*")))
+        memo = self.fn.mod.__dict__.setdefault("_callrange", {})
+        if key in memo: return memo[key]
+        memo[key] = None
+        sub = Intervals(g, None, None); sub.calldepth = cd + 1
+        sub.arg_ranges = {k: v for (k, v) in key[2] if v[0] >= 0 and v[1] != INF}
+        try:
+            dead = sub.dead_edges(); live = set(); st = [g.entry.id]
+            while st:
+                x = st.pop()
+                if x in live: continue
+                live.add(x)
+                for s2 in g.bmap[x].succs:
+                    if (x, s2.id) not in dead: st.append(s2.id)
+            lo, hi = INF, -INF
+            for r in g.rets():
+                if r.block.id not in live or not r.ops: continue
+                a, _ = sub.ival_at(r.ops[0], r.block)
+                lo = min(lo, a[0]); hi = max(hi, a[1])
+        except RecursionError:
+            return None
+        memo[key] = (lo, hi) if lo != INF else None
+        return memo[key]
+
     def sval(self, o):
         """signed reading of a constant operand"""
         if o["k"] == "int": c = int(o["sv"]); return (c, c)
@@ -343,6 +374,8 @@ class Intervals:
         if op == "call":
             c = const_return(self.fn.mod, i.get("callee"))
             if c is not None: return (c, c)
+            r = self.call_range(i, depth)
+            if r is not None: return (max(r[0], top[0]) if r[0] != -INF else top[0], min(r[1], top[1]) if r[1] != INF else top[1]) if r[0] >= 0 else top
             return top
         if op == "xor" and i["t"] == "i1":
             a = A(0); b = A(1)
